@@ -211,12 +211,27 @@ func (c *Copier) CopyReference(obj Reference) (Reference, error) {
 	if ok {
 		return newRef, nil
 	}
-	newRef = c.w.Alloc()
-	c.trans[obj] = newRef
 
-	val, err := Resolve(c.r, obj)
+	val, path, err := resolvePath(c.r, nil, obj, true)
 	if IsReadError(err) {
 		return 0, err
+	}
+	// all references of a chain of aliases share the copy of the object at
+	// its end
+	if err == nil && path != nil {
+		if newRef, ok := c.trans[path.Ref]; ok {
+			for p := path; p != nil; p = p.Parent {
+				c.trans[p.Ref] = newRef
+			}
+			return newRef, nil
+		}
+	}
+	newRef = c.w.Alloc()
+	c.trans[obj] = newRef
+	if err == nil {
+		for p := path; p != nil; p = p.Parent {
+			c.trans[p.Ref] = newRef
+		}
 	}
 	// a reference to a malformed or undefined source object resolves to
 	// null (PDF 2.0, 7.3.10); leave val nil and copy null in its place
